@@ -248,6 +248,20 @@ pub fn constructs(thorough: bool) -> Vec<Construct> {
             format!("g := (cs: [{ts2}]) -> () {{ cs[0] = {} }}; g([{}]); return ({}, *{});", o[1], o[0], o[0], o[0])
         }));
     }
+    // a cell of declared content type T made here, updated by every assignment operator with an
+    // operand of any type, then read: what is accepted must leave contents that inhabit T
+    let mut cell_types = palette::position_types();
+    cell_types.push(Ty::arr(Ty::union([Ty::Int, Ty::Float])));
+    cell_types.push(Ty::arr(Ty::Float));
+    for t in cell_types {
+        let ts = t.print();
+        for op in ["=", "+=", "-=", "*=", "/=", "%=", "**=", "<<=", ">>=", "&=", "|=", "^="] {
+            let ts2 = ts.clone();
+            v.push(stmt_c(&format!("cell-update:{op}:{ts}"), 2, move |o| {
+                format!("c := mut {ts2} {}; r := (c {op} {}); return (r, *c, c);", o[0], o[1])
+            }));
+        }
+    }
     v
 }
 
